@@ -149,4 +149,124 @@ theorem isCycle_sound (g : G α) (c : List α) (h : isCycle g c = true) : ∃ v,
       have := he e (by simpa using he')
       simpa using this
 
+/-! ### totality of `reach`: |V| rounds always close -/
+
+theorem closed_iff (g : G α) (r : List α) : closed g r = true ↔ ∀ x ∈ r, ∀ y, (x, y) ∈ g.edges → y ∈ r := by
+  unfold closed
+  simp only [List.all_eq_true, List.contains_iff_mem, decide_eq_true_eq]
+  constructor
+  · intro h x hx y e
+    exact h x hx y ((mem_succs g x y).mpr e)
+  · intro h x hx y hy
+    exact h x hx y ((mem_succs g x y).mp hy)
+
+theorem closed_expand (g : G α) (r : List α) (h : closed g r = true) : closed g (expand g r) = true := by
+  rw [closed_iff] at h ⊢
+  have same : ∀ x, x ∈ expand g r ↔ x ∈ r := by
+    intro x
+    rw [mem_expand]
+    constructor
+    · rintro (hx | ⟨y, hy, e⟩)
+      · exact hx
+      · exact h y hy x e
+    · exact Or.inl
+  intro x hx y e
+  exact (same y).mpr (h x ((same x).mp hx) y e)
+
+theorem closed_iter (g : G α) (n : Nat) (r : List α) (h : closed g r = true) : closed g (iter g n r) = true := by
+  induction n generalizing r with
+  | zero => exact h
+  | succ n ih => exact ih _ (closed_expand g r h)
+
+/-- the nodes of the graph not yet collected -/
+def miss (g : G α) (r : List α) : Nat := (g.nodes.filter fun x => !r.contains x).length
+
+theorem filter_length_lt (l : List α) (p q : α → Bool) (hpq : ∀ x, p x = true → q x = true)
+    (y : α) (hy : y ∈ l) (hq : q y = true) (hp : p y = false) : (l.filter p).length < (l.filter q).length := by
+  induction l with
+  | nil => simp at hy
+  | cons a l ih =>
+    have hle : ∀ l : List α, (l.filter p).length ≤ (l.filter q).length := by
+      intro l
+      induction l with
+      | nil => simp
+      | cons b l ihl =>
+        simp only [List.filter_cons]
+        cases hpb : p b with
+        | true => simp [hpq b hpb]; exact ihl
+        | false => cases hqb : q b <;> simp <;> omega
+    simp only [List.mem_cons] at hy
+    rcases hy with rfl | hy
+    · simp only [List.filter_cons, hq, hp, ↓reduceIte, List.length_cons, Bool.false_eq_true]
+      have := hle l
+      omega
+    · have := ih hy
+      simp only [List.filter_cons]
+      cases hpa : p a with
+      | true => simp [hpq a hpa]; exact this
+      | false => cases hqa : q a <;> simp <;> omega
+
+theorem miss_expand_lt (g : G α) (r : List α) (h : closed g r = false) : miss g (expand g r) < miss g r := by
+  have hn : ¬ (∀ x ∈ r, ∀ y, (x, y) ∈ g.edges → y ∈ r) := by
+    intro hall
+    have := (closed_iff g r).mpr hall
+    rw [h] at this
+    cases this
+  have : ∃ x ∈ r, ∃ y, (x, y) ∈ g.edges ∧ y ∉ r := by
+    apply Classical.byContradiction
+    intro hne
+    apply hn
+    intro x hx y e
+    apply Classical.byContradiction
+    intro hy
+    exact hne ⟨x, hx, y, e, hy⟩
+  obtain ⟨x, hx, y, e, hy⟩ := this
+  unfold miss
+  apply filter_length_lt g.nodes _ _ _ y (mem_nodes_of_edge g e).2
+  · simpa using hy
+  · have : y ∈ expand g r := (mem_expand g r y).mpr (Or.inr ⟨x, hx, e⟩)
+    simpa using this
+  · intro z hz
+    have hz' : z ∉ expand g r := by simpa using hz
+    have : z ∉ r := fun hr => hz' ((mem_expand g r z).mpr (Or.inl hr))
+    simpa using this
+
+theorem iter_closes (g : G α) (n : Nat) (r : List α) (h : miss g r ≤ n) : closed g (iter g n r) = true := by
+  induction n generalizing r with
+  | zero =>
+    have h0 : miss g r = 0 := by omega
+    show closed g r = true
+    rw [closed_iff]
+    intro x _ y e
+    have hy := (mem_nodes_of_edge g e).2
+    unfold miss at h0
+    have hnil := List.eq_nil_of_length_eq_zero h0
+    have := List.filter_eq_nil_iff.mp hnil y hy
+    simpa using this
+  | succ n ih =>
+    cases hc : closed g r with
+    | true => exact closed_iter g (n + 1) r hc
+    | false =>
+      have := miss_expand_lt g r hc
+      exact ih (expand g r) (by omega)
+
+/-- **`reach` always answers**: |V| rounds of expansion reach the closure -/
+theorem reach_total (g : G α) (a : α) : (reach g a).isSome = true := by
+  unfold reach
+  have hm : miss g (succs g a) ≤ g.nodes.length := by
+    unfold miss
+    exact List.length_filter_le _ _
+  simp [iter_closes g g.nodes.length (succs g a) hm]
+
+/-- unconditional form of `cyclic_iff` -/
+theorem cyclic_iff' (g : G α) : cyclic g = true ↔ ∃ v, Path g v v :=
+  cyclic_iff g (fun v _ => reach_total g v)
+
+/-- unconditional: the computed reachable set is exactly the set of nodes reachable by a path -/
+theorem mem_reachD (g : G α) (a b : α) : b ∈ reachD g a ↔ Path g a b := by
+  obtain ⟨r, hr⟩ := Option.isSome_iff_exists.mp (reach_total g a)
+  unfold reachD
+  rw [hr]
+  exact reach_sound_complete g a r hr b
+
 end GM.Graph
